@@ -31,6 +31,9 @@ import Aergo.Lemmas.Merkle
 import Aergo.Lemmas.Receipt
 import Aergo.Lemmas.ChainId
 import Aergo.Lemmas.Hardfork
+import Aergo.Lemmas.Startup
+import Aergo.Gen.Inv
+import Aergo.Model.Inventory
 
 namespace Aergo.Props.C19
 open Aergo.Enc Aergo.Gen.Enc
@@ -604,5 +607,261 @@ example : checkCompatibility [10, 20, 30, 40] { entries := [(2, 10), (3, 20), (4
 example : checkCompatibility [10, 20, 30, 40] { entries := [(2, 10), (3, 22), (4, 30), (5, 40)], badKeys := 0 } 25 = .fork 3 := by decide
 example : [0, 9, 10, 19, 20, 39, 40, 1000].map (version [10, 20, 30, 40]) = [0, 0, 2, 2, 3, 4, 5, 5] := by decide
 end hardfork
+
+/-! ## Part 6 — nothing forgotten: field inventories of the records without a straight-line digest writer
+
+`Aergo.Gen.Inv` is regenerated from the source on every run (tools/goext `inventory`): the exported fields of
+`types.Receipt`, `types.Event`, `types.ChainID`, `types.Genesis`, `config.HardforkConfig`, and for every codec method the
+fields of its receiver the body mentions. `Aergo.Inventory` holds the *intended* exceptions. A field added to one of the
+structs and forgotten in a writer (the failure this property is about) makes one of these theorems false; the harness
+(c19 `inventories`) finds the concrete pair of records by reflection over the same structs. -/
+section inventory
+open Aergo.Gen.Inv Aergo.Inventory
+
+/-- **Receipt, format 2**: every exported field of `types.Receipt` is written by `marshalBodyV2` (the body shared by the Merkle
+bytes and the storage bytes) or is one of the fields filled in when a receipt is served. -/
+theorem receipt_fields_committed_v2 : ∀ f ∈ fieldsOfReceipt, f ∈ mentions_Receipt_marshalBodyV2 ∨ f ∈ receiptDerived := by decide
+
+/-- **Receipt, format 1**: the same with gas and the fee-delegation flag, which exist from format 2 on. -/
+theorem receipt_fields_committed_v1 :
+    ∀ f ∈ fieldsOfReceipt, f ∈ mentions_Receipt_marshalBody ∨ f ∈ receiptDerived ∨ f ∈ receiptV2Only := by decide
+
+/-- Writers and readers of the receipt body touch the same fields (the event list is read by `unmarshalStoreBinary{,V2}`),
+and the Merkle / storage writers add nothing but the events to the body. -/
+theorem receipt_codec_symmetric :
+    (∀ f ∈ mentions_Receipt_marshalBodyV2, f ∈ mentions_Receipt_unmarshalBodyV2 ∨ f ∈ mentions_Receipt_unmarshalStoreBinaryV2) ∧
+    (∀ f ∈ mentions_Receipt_marshalBody, f ∈ mentions_Receipt_unmarshalBody ∨ f ∈ mentions_Receipt_unmarshalStoreBinary) ∧
+    (∀ f ∈ mentions_Receipt_unmarshalBodyV2, f ∈ mentions_Receipt_marshalBodyV2) ∧
+    (∀ f ∈ mentions_Receipt_unmarshalBody, f ∈ mentions_Receipt_marshalBody) ∧
+    (∀ f ∈ mentions_Receipt_MarshalMerkleBinaryV2 ++ mentions_Receipt_MarshalMerkleBinary ++
+           mentions_Receipt_marshalStoreBinaryV2 ++ mentions_Receipt_marshalStoreBinary, f ∈ mentions_Receipt_marshalBody) := by decide
+
+/-- The byte-level model (`Aergo.Receipt.Receipt`, hence `Receipt.view` in `receipt_digest_inj` / `receipts_root_binds`)
+has exactly the fields the real body writer touches. -/
+theorem receipt_model_covers :
+    (∀ f ∈ mentions_Receipt_marshalBodyV2, f ∈ receiptModelled) ∧ (∀ f ∈ receiptModelled, f ∈ mentions_Receipt_marshalBodyV2) := by decide
+
+/-- **Event**: every exported field of `types.Event` is in the Merkle bytes (`marshalCommonBinary`) or is filled in when the
+event is served; the storage bytes leave out, besides those, only the transaction hash, which `SetMemoryInfo` restores
+from the receipt; the reader assigns what the writer wrote; the model has exactly the committed fields. -/
+theorem event_fields_committed :
+    (∀ f ∈ fieldsOfEvent, f ∈ mentions_Event_marshalCommonBinary ∨ f ∈ eventDerived) ∧
+    (∀ f ∈ fieldsOfEvent, f ∈ mentions_Event_marshalStoreBinary ∨ f ∈ eventDerived ∨ f ∈ eventNotStored) ∧
+    (∀ f ∈ eventNotStored ++ eventDerived, f ∈ mentions_Event_SetMemoryInfo) ∧
+    (∀ f ∈ mentions_Event_marshalStoreBinary, f ∈ mentions_Event_unmarshalStoreBinary) ∧
+    (∀ f ∈ mentions_Event_marshalCommonBinary, f ∈ eventModelled) ∧ (∀ f ∈ eventModelled, f ∈ mentions_Event_marshalCommonBinary) ∧
+    mentions_Event_MarshalMerkleBinary = [] := by decide
+
+/-- **ChainID**: every exported field is written by `Bytes`, read by `Read`, compared by `Equals`, and is a field of the model. -/
+theorem chainid_fields_encoded :
+    ∀ f ∈ fieldsOfChainID, f ∈ mentions_ChainID_Bytes ∧ f ∈ mentions_ChainID_Read ∧ f ∈ mentions_ChainID_Equals ∧ f ∈ chainIdModelled := by decide
+
+/-- **Genesis**: `Genesis.Bytes` (gob of the whole struct) singles out no field but `Balance`, which it drops on purpose. -/
+theorem genesis_bytes_drops_only_balance :
+    (∀ f ∈ mentions_Genesis_Bytes, f ∈ genesisNotStored) ∧ (∀ f ∈ genesisNotStored, f ∈ fieldsOfGenesis) := by decide
+
+/-- **HardforkConfig**: field `i` is version `i+2` (the assumption under `Hardfork.version`, `firstMismatch`, `recFrom`). -/
+theorem hardfork_fields_are_versions : fieldsOfHardforkConfig = versionNames fieldsOfHardforkConfig.length := by decide
+
+/-- **CheckCompatibility** (generated Go code, one test per field): the tests are, in field order, one per configured version
+with the stored key of the same name, each with the truth table of `(isFork(c.Vk,h) || isFork(db[Vk],h)) && c.Vk != db[Vk]`,
+and `checkOlderNode` gets the highest configured version — what `Hardfork.firstMismatch` / `checkCompatibility` transcribe. -/
+theorem compat_checks_spec :
+    compatChecks.map (fun c => (c.1, c.2.1, c.2.2.1)) = fieldsOfHardforkConfig.map (fun f => (f, f, f)) ∧
+    (∀ c ∈ compatChecks, c.2.2.2 = compatTable) ∧
+    compatOlderMax = fieldsOfHardforkConfig.length + 1 := by decide
+
+end inventory
+
+/-! ## Part 7 — start-up on an existing chain database: `checkHardfork` (chain/chainservice.go), `ChainDB.Hardfork`,
+`FixDbConfig`, `WriteHardfork`; carried identifiers
+
+The clause "the hardfork version assigned to a height is stable across restarts", stated for the whole start-up path
+and over whole histories of a data directory:
+
+    a start that the node accepts gives every height up to the best block the version it had under the
+    configuration the chain was run with so far                                            (FULL STATEMENT)
+
+`old` is that earlier configuration (a release may know fewer versions than the next one: `old.length ≤ c.length`),
+`recordOf old` the record it left (`WriteHardfork`). On the pinned code the full statement is FALSE
+(`restart_keeps_versions_false`, known finding C19-hardfork-new-fork-height-at-or-below-best-accepted): a key the record
+lacks is filled with the node's own height before the comparison, and an unreadable record skips the comparison. It is
+proved under the guard "the stored record has every key the node configures" (`_partial`), lifted to all histories
+(`all_restarts_keep_versions_partial`), and proved in full for the repaired variant of the same definition
+(`restart_repaired_keeps_versions`, `all_restarts_keep_versions_repaired`). Tie: harness c19chain runs the real
+`checkHardfork` (shim on a live node and real stop / `NewChainService`) on generated records; `chkhf` operations. -/
+section startup
+open Aergo.Hardfork Aergo.Startup
+
+/-- `fixFromWith id` is the `FixDbConfig` transcription the `fix` operations correspond (`Hardfork.fixFrom`). -/
+theorem fix_is_model (d : List (Nat × Nat)) (i : Nat) (c : Config) : fixFromWith id d i c = fixFrom d i c := by
+  induction c generalizing d i with
+  | nil => rfl
+  | cons x rest ih => simp only [fixFromWith, fixFrom, id]; exact ih _ _
+
+/-- **restart_keeps_versions_partial.** Pinned code, guard: the stored record has every key the node configures
+(the record was written by a release that knows the same versions). -/
+theorem restart_keeps_versions_partial (c old : Config) (best h : Nat) (hkeys : old.length = c.length)
+    (hs : checkHardfork c (.record (recordOf old)) best = .started) (hh : h ≤ best) : version c h = version old h := by
+  have := started_versions id false c old best h (by omega) hs hh
+  rwa [List.drop_eq_nil_of_le (by omega), List.map_nil, List.append_nil] at this
+
+-- non-vacuity: an accepted restart with a changed (future) height
+example : checkHardfork [1, 2, 3, 9] (.record (recordOf [1, 2, 3, 7])) 6 = .started := by decide
+example : checkHardfork [1, 2, 3, 5] (.record (recordOf [1, 2, 3, 7])) 6 = .refused (.fork 5) := by decide
+
+/-- **The full statement is false on the pinned code** (known finding): the record of a release that knew V2..V4,
+a new release scheduling V5 at height 5 with the best block at 6 — accepted, and blocks 5 and 6 change from version 4 to 5. -/
+theorem restart_keeps_versions_false :
+    ¬ ∀ (c old : Config) (best h : Nat), old.length ≤ c.length → checkHardfork c (.record (recordOf old)) best = .started →
+        h ≤ best → version c h = version old h := by
+  intro hall
+  have := hall [1, 2, 3, 5] [1, 2, 3] 6 5 (by decide) (by decide) (by decide)
+  revert this; decide
+
+/-- An unreadable record is taken for "no record": every configuration is accepted, whatever the chain holds. -/
+theorem restart_unreadable_record_unchecked (c : Config) (best : Nat) : checkHardfork c .unparsable best = .started := rfl
+
+/-- **restart_repaired_keeps_versions.** The full statement holds for the repaired start-up (a missing key = "never activated",
+`never` above every block number; unreadable record = refusal): for every earlier configuration with at most as many versions. -/
+theorem restart_repaired_keeps_versions (never : Nat) (c old : Config) (best h : Nat) (hlen : old.length ≤ c.length)
+    (hn : best < never) (hs : checkHardforkRepaired never c (.record (recordOf old)) best = .started) (hh : h ≤ best) :
+    version c h = version old h := by
+  have := started_versions (fun _ => never) true c old best h hlen hs hh
+  rw [this]
+  unfold version
+  apply verFrom_append_gt
+  intro x hx
+  obtain ⟨_, _, rfl⟩ := List.mem_map.mp hx
+  omega
+
+example : checkHardforkRepaired (2^64 - 1) [1, 2, 3, 5] (.record (recordOf [1, 2, 3])) 6 = .refused (.fork 5) := by decide
+example : checkHardforkRepaired (2^64 - 1) [1, 2, 3, 7] (.record (recordOf [1, 2, 3])) 6 = .started := by decide
+example : checkHardforkRepaired (2^64 - 1) [1, 2, 3, 7] .unparsable 6 = .unreadable := by decide
+
+/-- **all_restarts_keep_versions_partial.** Any number of starts of one data directory by releases that know the same
+versions (accepted or refused, any configurations): the version of a height that was at or below the best block at every one
+of these starts is, under the configuration of the last accepted start, what it was under the first. -/
+theorem all_restarts_keep_versions_partial (old : Config) (starts : List (Config × Nat))
+    (hsame : Chain (· = ·) old.length starts) (h : Nat) (hh : ∀ s ∈ starts, h ≤ s.2) :
+    version (lastAccepted checkHardfork old starts) h = version old h :=
+  lastAccepted_stable checkHardfork (· = ·) (fun _ _ _ h1 h2 => h1.trans h2)
+    (fun c old best hl hs h hb => restart_keeps_versions_partial c old best h hl hs hb) old starts hsame h hh
+
+/-- **all_restarts_keep_versions_repaired.** The same for the repaired start-up, over releases that only ever add versions. -/
+theorem all_restarts_keep_versions_repaired (never : Nat) (old : Config) (starts : List (Config × Nat))
+    (hup : Chain (· ≤ ·) old.length starts) (h : Nat) (hh : ∀ s ∈ starts, h ≤ s.2) (hn : ∀ s ∈ starts, s.2 < never) :
+    version (lastAccepted (fun c s best => if best < never then checkHardforkRepaired never c s best else .unreadable) old starts) h = version old h :=
+  lastAccepted_stable _ (· ≤ ·) (fun _ _ _ h1 h2 => Nat.le_trans h1 h2)
+    (fun c old best hl hs h hb => by
+      by_cases hb' : best < never
+      · rw [if_pos hb'] at hs; exact restart_repaired_keeps_versions never c old best h hl hb' hs hb
+      · rw [if_neg hb'] at hs; cases hs) old starts hup h hh
+
+-- a history: same release, a refused and two accepted starts
+example : lastAccepted checkHardfork [1, 2, 3, 9] [([1, 2, 3, 8], 5), ([1, 2, 4, 8], 6), ([1, 2, 3, 10], 7)] = [1, 2, 3, 10] := by decide
+
+/-- The receipt format of a block is one function of the configuration and the block number; it agrees with the block's
+version (`IsV2Fork(no)` ⇔ `Version(no) ≥ 2`) on every valid configuration. -/
+theorem receipt_format_is_version (c : Config) (no : Nat) (hv : validate c = true) :
+    (receiptFormat c no = 2 ↔ 2 ≤ version c no) ∧ (receiptFormat c no = 1 ∨ receiptFormat c no = 2) := by
+  cases c with
+  | nil => simp [receiptFormat, version, verFrom]
+  | cons v2 rest =>
+    have hr := verFrom_range no 1 rest
+    have hvr : validFrom v2 rest = true := by
+      simp only [validate, validFrom, Bool.and_eq_true] at hv
+      exact hv.2
+    have hmono : verFrom no 1 rest ≠ 0 → v2 ≤ no := validFrom_le_of_ver no 1 rest v2 hvr
+    have hver : version (v2 :: rest) no =
+        if verFrom no 1 rest ≠ 0 then verFrom no 1 rest else if v2 ≤ no then 2 else 0 := rfl
+    by_cases h2 : v2 ≤ no
+    · have hf : receiptFormat (v2 :: rest) no = 2 := by simp [receiptFormat, isFork, h2]
+      rw [hf, hver]
+      refine ⟨⟨fun _ => ?_, fun _ => rfl⟩, .inr rfl⟩
+      split
+      · omega
+      · simp [h2]
+    · have hz : verFrom no 1 rest = 0 := by
+        by_cases hz : verFrom no 1 rest = 0
+        · exact hz
+        · exact absurd (hmono hz) h2
+      have hf : receiptFormat (v2 :: rest) no = 1 := by simp [receiptFormat, isFork, h2]
+      rw [hf, hver, hz]
+      simp [h2]
+
+end startup
+
+/-! ## Part 8 — carried identifiers (`Block.Hash`, `Tx.Hash`)
+
+The binding theorems of Part 1 are about the *computed* digests. A `types.Block` / `types.Tx` also carries a `Hash` field:
+`Block.BlockHash()` returns it when non-empty (and memoises the digest otherwise), `CalculateTxsRootHash` hashes the
+carried `Tx.Hash`. For transactions `transaction.Validate` (types/transaction.go) rejects a carried hash that is not the
+digest; for blocks nothing does (known finding C18-id-not-recomputed), so the block statements carry the guard
+"carried = [] or carried = digest", which the node's own block factory must establish (harness c19chain checks it on the
+real factory: a block whose identifier was memoised before `SetConfirms` / `Sign` violates it). -/
+section carried
+open Aergo.Startup Aergo.Merkle
+
+theorem block_id_fresh (d : Bytes) : blockHash [] d = d := rfl
+
+theorem block_id_carried (c d : Bytes) (hc : c ≠ []) : blockHash c d = c := by
+  unfold blockHash
+  cases c with
+  | nil => exact absurd rfl hc
+  | cons _ _ => rfl
+
+/-- Under the guard the identifier a block carries is the digest of its header… -/
+theorem block_id_is_digest (c d : Bytes) (hc : c = [] ∨ c = d) : blockHash c d = d := by
+  rcases hc with rfl | rfl
+  · rfl
+  · unfold blockHash; split <;> rfl
+
+/-- …so it commits to every header field (`block_id_binds` for the identifier as `BlockHash()` returns it). -/
+theorem carried_block_id_binds (H : Bytes → Bytes) (fk : String × Kind) (hfk : fk ∈ blockHashSpec) (r r' : Rec)
+    (hagree : AgreeExcept fk.1 r r') (hne : encField r fk ≠ encField r' fk)
+    (c c' : Bytes) (hc : c = [] ∨ c = H (encode blockHashSpec r)) (hc' : c' = [] ∨ c' = H (encode blockHashSpec r')) :
+    blockHash c (H (encode blockHashSpec r)) ≠ blockHash c' (H (encode blockHashSpec r')) ∨
+      Collision H (encode blockHashSpec r) (encode blockHashSpec r') := by
+  rw [block_id_is_digest _ _ hc, block_id_is_digest _ _ hc']
+  exact block_id_binds H fk hfk r r' hagree hne
+
+/-- Without the guard nothing is bound: any non-empty carried value is the identifier, whatever the header (C18-id-not-recomputed). -/
+theorem carried_block_id_unbound (c d d' : Bytes) (hc : c ≠ []) : blockHash c d = blockHash c d' := by
+  rw [block_id_carried c d hc, block_id_carried c d' hc]
+
+/-- Memoising the identifier before the header is complete freezes the digest of the incomplete header: after the header
+changed (digest `d1`) the block still answers `d0`. -/
+theorem block_id_stale_after_memo (d0 d1 : Bytes) (h0 : d0 ≠ []) : blockHash (blockHash [] d0) d1 = d0 := by
+  rw [block_id_fresh, block_id_carried d0 d1 h0]
+
+theorem tx_hash_ok_iff (c d : Bytes) : txHashOk c d = true ↔ c = d := by
+  unfold txHashOk; exact beq_iff_eq
+
+/-- **txs_root_binds_carried.** The transaction root is computed over the *carried* hashes; for transactions that passed
+`Validate` (carried hash = digest of the body, `txHashOk`) it commits to the bodies as `txs_root_binds` states. -/
+theorem txs_root_binds_carried (H : Bytes → Bytes) (hH : ∀ x, (H x).length = 32) (zero : Bytes) (txs txs' : List (Rec × Bytes))
+    (hv : ∀ t ∈ txs ++ txs', txHashOk t.2 (H (encode txHashSpec t.1)) = true)
+    (hl : txs.length = txs'.length)
+    (he : root (fun l r => H (l ++ r)) zero ((txs.map (·.2)).map some) = root (fun l r => H (l ++ r)) zero ((txs'.map (·.2)).map some)) :
+    (txs.map (·.1)).map (encode txHashSpec) = (txs'.map (·.1)).map (encode txHashSpec) ∨
+      CollisionIn H ((txs.map (·.1)).map (encode txHashSpec) ++ hashedBytes H ((txs.map (·.1)).map (fun t => H (encode txHashSpec t))))
+                    ((txs'.map (·.1)).map (encode txHashSpec) ++ hashedBytes H ((txs'.map (·.1)).map (fun t => H (encode txHashSpec t)))) := by
+  have hc : ∀ (l : List (Rec × Bytes)), (∀ t ∈ l, txHashOk t.2 (H (encode txHashSpec t.1)) = true) →
+      l.map (·.2) = (l.map (·.1)).map (fun t => H (encode txHashSpec t)) := by
+    intro l hl'
+    induction l with
+    | nil => rfl
+    | cons t rest ih =>
+      simp only [List.map_cons, List.cons.injEq]
+      exact ⟨(tx_hash_ok_iff _ _).mp (hl' t List.mem_cons_self), ih (fun u hu => hl' u (List.mem_cons_of_mem _ hu))⟩
+  rw [hc txs (fun t ht => hv t (List.mem_append_left _ ht)), hc txs' (fun t ht => hv t (List.mem_append_right _ ht))] at he
+  exact txs_root_binds H hH zero (txs.map (·.1)) (txs'.map (·.1)) (by simpa using hl) he
+
+/-- Without `Validate` the root says nothing about the bodies: two lists with different bodies and the same carried hashes. -/
+theorem txs_root_unbound_without_validate (h : Bytes → Bytes → Bytes) (zero c : Bytes) (b b' : Rec) :
+    root h zero (([(b, c)].map (·.2)).map some) = root h zero (([(b', c)].map (·.2)).map some) := rfl
+
+end carried
 
 end Aergo.Props.C19
